@@ -152,8 +152,13 @@ func genericEvents(evs []event.Event) []string {
 
 var dateHdr = regexp.MustCompile(`(?i)date: [^\r\n]*`)
 
+// the ftp filesystem root is a fresh unique directory per service construction (and error replies spell it out)
+var ftpRoot = regexp.MustCompile(`/[^ \r\n]*htverif-lab-[0-9]+/ftp/[0-9a-f]+`)
+
 func canonOut(b []byte) string {
-	return hx(dateHdr.ReplaceAll(b, []byte("date: X")))
+	b = dateHdr.ReplaceAll(b, []byte("date: X"))
+	b = ftpRoot.ReplaceAll(b, []byte("ROOT"))
+	return hx(b)
 }
 
 type sessView struct {
@@ -319,8 +324,10 @@ func isoScripts(svc string, r *Rng) [][][]byte {
 		return [][][]byte{
 			lines("USER anonymous\r\n", "PASS anonymous\r\n", "CWD /iso1\r\n", "PWD\r\n"),
 			lines("USER anonymous\r\n", "PASS anonymous\r\n", "PWD\r\n", "CWD /iso2\r\n", "PWD\r\n"),
-			lines("USER "+w()+"\r\n", "PASS x\r\n", "PWD\r\n", "SYST\r\n"),
+			lines("USER "+w()+"\r\n", "PASS x\r\n", "PWD\r\n", "SYST\r\n", "FEAT\r\n"),
 			lines("PWD\r\n", "USER anonymous\r\n", "PASS anonymous\r\n", "CWD iso1\r\n", "CWD ..\r\n", "PWD\r\n"),
+			lines("FEAT\r\n", "USER anonymous\r\n", "PASS anonymous\r\n", "TYPE I\r\n", "RNFR iso1\r\n", "FEAT\r\n"),
+			lines("USER anonymous\r\n", "PASS anonymous\r\n", "REST 5\r\n", "RNTO zz\r\n", "MODE S\r\n", "HELP\r\n", "STAT\r\n"),
 		}
 	case "telnet":
 		return [][][]byte{
@@ -336,7 +343,10 @@ func isoScripts(svc string, r *Rng) [][][]byte {
 		return [][][]byte{
 			{[]byte("EHLO " + a + ".example\r\n"), []byte("MAIL FROM:<" + a + "@x>\r\n"), []byte("RCPT TO:<r@y>\r\n"), []byte("DATA\r\n"), mail(a), []byte("QUIT\r\n")},
 			{[]byte("HELO " + b + "\r\n"), []byte("MAIL FROM:<" + b + "@x>\r\n"), []byte("RCPT TO:<q@y>\r\n"), []byte("DATA\r\n"), mail(b), []byte("NOOP\r\n")},
-			{[]byte("EHLO c\r\n"), []byte("NOOP\r\n"), []byte("RSET\r\n")},
+			{[]byte("EHLO c\r\n"), []byte("NOOP\r\n"), []byte("RSET\r\n"), []byte("HELP\r\n"), []byte("MAIL FROM:<c@x>\r\n"), []byte("BDAT 9\r\nSubject: "), []byte("RSET\r\n")},
+			// a message abandoned between chunks, and one sent with BDAT ... LAST
+			{[]byte("EHLO d\r\n"), []byte("MAIL FROM:<d@x>\r\n"), []byte("RCPT TO:<r@y>\r\n"), []byte("BDAT 31\r\nSubject: overdue\r\nX-Campaign: 7\r\n")},
+			{[]byte("EHLO e\r\n"), []byte("MAIL FROM:<e@x>\r\n"), []byte("BDAT 24 LAST\r\nSubject: hi\r\n\r\nbody of e")},
 		}
 	case "redis":
 		c := func(args ...string) []byte {
@@ -355,7 +365,7 @@ func isoScripts(svc string, r *Rng) [][][]byte {
 		v := w()
 		return [][][]byte{
 			lines("set k1 0 0 "+itoa(len(v))+"\r\n"+v+"\r\n", "get k1\r\n"),
-			lines("get k1\r\n", "delete k1\r\n", "flush_all\r\n"),
+			lines("get k1\r\n", "delete k1\r\n", "flush_all\r\n", "stats\r\n"),
 			lines("version\r\n", "get "+w()+"\r\n"),
 		}
 	case "http":
@@ -598,7 +608,16 @@ func genC03(tier string, seed uint64) {
 		}
 		// the same session twice at once
 		runIso(svc, [][][]byte{sc[0], sc[0]}, interleavings([]int{len(sc[0]), len(sc[0])})[r.Intn(3)])
-		// histories
+		// histories: every script as the probe after all the others
+		for i := range sc {
+			var earlier [][][]byte
+			for k := range sc {
+				if k != i {
+					earlier = append(earlier, sc[k])
+				}
+			}
+			runHist(svc, earlier, sc[i])
+		}
 		for n := 1; n <= 4; n++ {
 			var earlier [][][]byte
 			for k := 0; k < n; k++ {
